@@ -16,6 +16,9 @@ namespace MiniMoka
 namespace Sync
 
 structure Info where
+  /-- ghost: the key this info was created for (the code keeps it in the list nodes and
+  queued ops; an `EntryInfo` never moves to another key) -/
+  key : Nat := 0
   admitted : Bool := false
   dirty : Bool := true
   la : Nat := 0
@@ -286,37 +289,48 @@ def removeCandidate (p : Params) (s : SState) (key : Nat) (ve : VE) : SState :=
   | some cur => if p.q.d7 || cur.id == ve.id then { s with map := AL.erase s.map key } else s
   | none => s
 
+/-- "Is the entry of this queued op still the map's entry for its key?" (D7 repair) -/
+def isCurrentEntry (s : SState) (key : Nat) (ve : VE) : Bool :=
+  match AL.get? s.map key with
+  | some cur => cur.info == ve.info
+  | none => false
+
+/-- "The candidate is too big to fit in the cache." -/
+def tooBig (p : Params) (weight : Nat) : Bool :=
+  match p.cap with
+  | some maxCap => decide (weight > maxCap)
+  | none => false
+
+/-- The `match Self::admit(..)` part of `handle_upsert`. -/
+def admitOrReject (p : Params) (s : SState) (key : Nat) (hash : UInt64) (ve : VE) (newW : Nat) :
+    SState :=
+  let cf := s.sk.frequency hash
+  let a := admitLoop p s newW cf s.prob {}
+  if a.vw ≥ newW ∧ cf > a.vf then
+    let (s, skipped) := removeVictims p a.victims s a.skipped
+    let s := handleAdmit p s key hash ve newW
+    moveSkipped skipped s
+  else
+    let s := removeCandidate p s key ve
+    moveSkipped a.skipped s
+
+/-- The "already admitted" branch of `handle_upsert`: an update. -/
+def applyUpdate (p : Params) (s : SState) (ve : VE) (oldW newW : Nat) : SState :=
+  let s := subCounters s 0 (if p.q.d8 then oldW else (getInfo s ve.info).weight)
+  let s := addCounters s 0 newW
+  let s := if p.q.d8 then s else withInfo s ve.info (fun i => { i with weight := newW })
+  let s := moveToBackAoE s ve.info
+  moveToBackWoE s ve.info
+
 /-- `handle_upsert`. -/
 def handleUpsert (p : Params) (s : SState) (key : Nat) (hash : UInt64) (ve : VE)
     (oldW newW : Nat) : SState :=
   let s := withInfo s ve.info (fun i => { i with dirty := false })
-  if (getInfo s ve.info).admitted then
-    let s := subCounters s 0 (if p.q.d8 then oldW else (getInfo s ve.info).weight)
-    let s := addCounters s 0 newW
-    let s := if p.q.d8 then s else withInfo s ve.info (fun i => { i with weight := newW })
-    let s := moveToBackAoE s ve.info
-    moveToBackWoE s ve.info
-  else
-    let isCurrent := match AL.get? s.map key with
-      | some cur => cur.info == ve.info
-      | none => false
-    if !p.q.d7 && !isCurrent then s
-    else if hasEnoughCapacity p newW s then handleAdmit p s key hash ve newW
-    else
-      let tooBig : Bool := match p.cap with
-        | some maxCap => decide (newW > maxCap)
-        | none => false
-      if tooBig then removeCandidate p s key ve
-      else
-        let cf := s.sk.frequency hash
-        let a := admitLoop p s newW cf s.prob {}
-        if a.vw ≥ newW ∧ cf > a.vf then
-          let (s, skipped) := removeVictims p a.victims s a.skipped
-          let s := handleAdmit p s key hash ve newW
-          moveSkipped skipped s
-        else
-          let s := removeCandidate p s key ve
-          moveSkipped a.skipped s
+  if (getInfo s ve.info).admitted then applyUpdate p s ve oldW newW
+  else if !p.q.d7 && !isCurrentEntry s key ve then s
+  else if hasEnoughCapacity p newW s then handleAdmit p s key hash ve newW
+  else if tooBig p newW then removeCandidate p s key ve
+  else admitOrReject p s key hash ve newW
 
 def applyWrite (p : Params) (s : SState) : WOp → SState
   | .upsert key hash ve oldW newW => handleUpsert p s key hash ve oldW newW
@@ -478,6 +492,12 @@ def recordReadOp (p : Params) (s : SState) (op : ROp) : SState :=
 
 /-! ### public API -/
 
+/-- `new_value_entry_from`: the shared info is marked dirty and re-timed (and, on the
+unrepaired tree, given the new weight at once). -/
+def refreshInfo (p : Params) (s : SState) (i : Nat) (ts weight : Nat) : SState :=
+  withInfo s i (fun x =>
+    { x with dirty := true, la := ts, lm := ts, weight := if p.q.d8 then weight else x.weight })
+
 def insert (p : Params) (s : SState) (k v : Nat) : SState :=
   let ts := s.now
   let weight := p.weigh k v
@@ -485,15 +505,15 @@ def insert (p : Params) (s : SState) (k v : Nat) : SState :=
   match AL.get? s.map k with
   | some old =>
     let oldW := (getInfo s old.info).weight
-    let s := withInfo s old.info (fun i =>
-      { i with dirty := true, la := ts, lm := ts, weight := if p.q.d8 then weight else i.weight })
+    let s := refreshInfo p s old.info ts weight
     let ve : VE := { id := s.nextId, val := v, info := old.info }
     let s := { s with nextId := s.nextId + 1, map := AL.put s.map k ve }
     scheduleWriteOp p 3 s (.upsert k hash ve oldW weight)
   | none =>
     let infoId := s.nextId
     let ve : VE := { id := s.nextId + 1, val := v, info := infoId }
-    let info : Info := { admitted := false, dirty := true, la := ts, lm := ts, weight := weight }
+    let info : Info :=
+      { key := k, admitted := false, dirty := true, la := ts, lm := ts, weight := weight }
     let s := { s with nextId := s.nextId + 2, infos := AL.put s.infos infoId info,
                       map := AL.put s.map k ve }
     scheduleWriteOp p 3 s (.upsert k hash ve 0 weight)
